@@ -2,7 +2,7 @@
 
 Every model states its value, and registers its panic precondition as a site.
 A callee without a model is `Unsupported` (the rule that needed it fails closed)."""
-from .terms import (TRUE, FALSE, mk_not, mk_and, mk_or, mk_sel, mk_icmp, mk_fcmp, iconst, sym)
+from .terms import (TRUE, FALSE, mk_not, mk_and, mk_or, mk_sel, mk_icmp, mk_fcmp, iconst, sym, subterms)
 from .values import *
 from .interp import Diverges, CallCtx, State
 from .facts import ty_str
@@ -92,7 +92,17 @@ for _name in ('ln', 'exp', 'recip', 'abs', 'sqrt', 'ln_1p', 'exp_m1', 'log2', 'l
               'round', 'trunc', 'signum', 'sin', 'cos', 'tan', 'tanh', 'cbrt', 'fract'):
     def _mk(n):
         def f(ctx):
-            return ('fcall', n, ctx.args[0])
+            a = ctx.args[0]
+            if n in ('abs', 'floor', 'ceil', 'trunc', 'fract', 'round', 'signum') and isinstance(a, tuple) and a and a[0] == 'fc':
+                # exact functions of a finite literal are decided here
+                import struct, math
+                x = struct.unpack('<d', struct.pack('<Q', a[1]))[0]
+                if math.isfinite(x):
+                    y = {'abs': abs(x), 'floor': float(math.floor(x)), 'ceil': float(math.ceil(x)), 'trunc': float(math.trunc(x)),
+                         'fract': x - math.trunc(x), 'round': float(math.floor(abs(x) + 0.5)) * (1.0 if x >= 0 else -1.0),
+                         'signum': math.copysign(1.0, x)}[n]
+                    return ('fc', struct.unpack('<Q', struct.pack('<d', y))[0])
+            return ('fcall', n, a)
         return f
     MODELS['<f64>::%s' % _name] = _mk(_name)
 
@@ -135,16 +145,55 @@ def _(ctx):
     return NotImplemented
 
 
-@model('std::borrow::Borrow::borrow', 'std::convert::AsRef::as_ref')
+@model('std::borrow::Borrow::borrow', 'std::convert::AsRef::as_ref', 'std::convert::AsMut::as_mut', 'std::borrow::BorrowMut::borrow_mut')
 def _(ctx):
-    """the blanket impls `Borrow<T> for T` and `Borrow<T> for &T`: a reference to the same value"""
+    """`Borrow<T> for T / &T`, `AsRef<[T]> for [T] / Vec<T> / [T; N]` (and the `mut` forms): a reference to the same storage"""
     r = ctx.args[0]
+    if isinstance(r, (SliceRef, EmptySlice)):
+        return r
     if not isinstance(r, Ref):
         return NotImplemented
     inner = ctx.interp.read(ctx.state, r.root, r.path)
     if isinstance(inner, (Ref, SliceRef)):
         return inner
+    targs = ctx.fn.get('args') or []
+    wants_slice = len(targs) >= 2 and targs[1].get('k') == 'slice'
+    if isinstance(inner, VecV) or (isinstance(inner, Arr) and wants_slice):
+        return deref_seq(ctx, r)
     return r
+
+
+@model('std::slice::from_ref', 'std::slice::from_mut')
+def _(ctx):
+    """a one-element slice over the referenced value"""
+    it = ctx.interp
+    r = ctx.args[0]
+    if not isinstance(r, Ref):
+        return NotImplemented
+    v = it.read(ctx.state, r.root, r.path)
+    root = it.alloc(ctx.state, Arr((v,)), 'one')
+    return SliceRef(root, (), iconst(0), iconst(1), r.mut)
+
+
+@model('std::iter::Iterator::filter_map')
+def _(ctx):
+    """`s.filter_map(f)` where f yields Some for every element is `s.map(f's payload)`; a real filter is not modelled"""
+    it = ctx.interp
+    s = _stream_arg(ctx, ctx.args[0])
+    st0 = ctx.state
+    base = s.parts[0] if s.kind == 'rev' else s
+    ivar, r, sub = _closure_on_elem(ctx, base, ctx.args[1])
+    ctx.state = State(sub.state.store, st0.guard, st0.facts)
+    g, payload = _opt_parts(ctx, r)
+    if g != TRUE and payload is not None:
+        from .rules.panics import entails
+        n_ = stream_len(it, st0, base)
+        if entails(set(st0.facts) | {mk_icmp('lt', ivar, n_)}, g):
+            g = TRUE
+    if g != TRUE or payload is None:
+        raise Unsupported('filter_map that drops elements')
+    cell = ctx.args[1] if isinstance(ctx.args[1], Ref) else Ref(it.alloc(ctx.state, ctx.args[1], 'clos'), (), True)
+    return Stream('fmap', (s, cell))
 
 
 @model('<f64>::classify')
@@ -745,7 +794,7 @@ def _(ctx):
     return opt(mk_icmp('lt', idx, slice_len(it, s)), elem_ref(it, s, it.iadd(s.start, idx)))
 
 
-@model('<[T]>::split_first')
+@model('<[T]>::split_first', '<[T]>::split_first_mut')
 def _(ctx):
     it = ctx.interp
     s = deref_seq(ctx, ctx.args[0])
@@ -755,7 +804,7 @@ def _(ctx):
     return opt(nonempty(it, s), Tup((elem_ref(it, s, s.start), rest)))
 
 
-@model('<[T]>::split_last')
+@model('<[T]>::split_last', '<[T]>::split_last_mut')
 def _(ctx):
     it = ctx.interp
     s = deref_seq(ctx, ctx.args[0])
@@ -831,12 +880,40 @@ def idiv(a, b):
     return ('idiv', a, b)
 
 
+def _lin_form(t, sign, acc):
+    h = t[0]
+    if h == 'ic':
+        acc[None] = acc.get(None, 0) + sign * t[1]
+    elif h == 'i+':
+        _lin_form(t[1], sign, acc)
+        _lin_form(t[2], sign, acc)
+    elif h == 'i-':
+        _lin_form(t[1], sign, acc)
+        _lin_form(t[2], -sign, acc)
+    else:
+        acc[t] = acc.get(t, 0) + sign
+
+
 def isatsub(a, b):
     """saturating a − b on lengths; folded when both are literals or b is 0"""
     if a[0] == 'ic' and b[0] == 'ic':
         return iconst(max(0, a[1] - b[1]))
     if b == iconst(0):
         return a
+    # a − b that cannot go below zero because every atom left over is a length with coefficient +1 and the constant is ≥ 0
+    # ((len + 1) − 1, (len_a + len_b) − len_a)
+    acc = {}
+    _lin_form(a, 1, acc)
+    _lin_form(b, -1, acc)
+    const = acc.pop(None, 0)
+    items = [(k, v) for k, v in acc.items() if v != 0]
+    if const >= 0 and len(items) <= 4 and all(v == 1 and k[0] == 'len' for k, v in items):
+        out = None
+        for k in sorted([k for k, _ in items], key=repr):
+            out = k if out is None else ('i+', out, k)
+        if out is None:
+            return iconst(const)
+        return ('i+', out, iconst(const)) if const else out
     return ('isatsub', a, b)
 
 
@@ -844,7 +921,7 @@ def stream_len(it, st, s):
     k = s.kind
     if k == 'src':
         return slice_len(it, s.parts[0])
-    if k in ('rev', 'cloned', 'enumerate', 'map'):
+    if k in ('rev', 'cloned', 'enumerate', 'map', 'fmap'):
         return stream_len(it, st, s.parts[0])
     if k == 'zip':
         a = stream_len(it, st, s.parts[0])
@@ -886,7 +963,7 @@ def stream_nonempty(it, st, s):
     k = s.kind
     if k == 'src':
         return nonempty(it, s.parts[0])
-    if k in ('rev', 'cloned', 'enumerate', 'map'):
+    if k in ('rev', 'cloned', 'enumerate', 'map', 'fmap'):
         return stream_nonempty(it, st, s.parts[0])
     if k == 'zip':
         return mk_and(stream_nonempty(it, st, s.parts[0]), stream_nonempty(it, st, s.parts[1]))
@@ -994,6 +1071,11 @@ def stream_elem(ctx, s, i):
         inner, clos = s.parts
         e = stream_elem(ctx, inner, i)
         return it.call_closure(ctx, clos, [e])
+    if k == 'fmap':
+        inner, clos = s.parts
+        e = stream_elem(ctx, inner, i)
+        g_, payload_ = _opt_parts(ctx, it.call_closure(ctx, clos, [e]))
+        return payload_
     if k == 'opaque':
         return Opaque(('selem', s.parts[0], i))
     if k == 'range':
@@ -1037,7 +1119,7 @@ def stream_tail(it, st, s):
         raise Unsupported('tail of rev(%s)' % inner.kind)
     if k in ('cloned',):
         return Stream(k, (stream_tail(it, st, s.parts[0]),))
-    if k == 'map':
+    if k in ('map', 'fmap'):
         return Stream(k, (stream_tail(it, st, s.parts[0]), s.parts[1]))
     if k == 'enumerate':
         return Stream(k, (stream_tail(it, st, s.parts[0]), it.iadd(s.parts[1], one)))
@@ -1188,7 +1270,7 @@ def stream_advance(it, s, k):
         return Stream('range', (it.iadd(s.parts[0], k), s.parts[1]))
     if kind in ('cloned',):
         return Stream(kind, (stream_advance(it, s.parts[0], k),))
-    if kind == 'map':
+    if kind in ('map', 'fmap'):
         return Stream(kind, (stream_advance(it, s.parts[0], k), s.parts[1]))
     if kind == 'enumerate':
         return Stream(kind, (stream_advance(it, s.parts[0], k), it.iadd(s.parts[1], k)))
@@ -1208,7 +1290,7 @@ def drop_last(it, st, s):
         return Stream('range', (s.parts[0], it.isub(s.parts[1], one)))
     if k in ('cloned',):
         return Stream(k, (drop_last(it, st, s.parts[0]),))
-    if k in ('map', 'enumerate', 'skip'):
+    if k in ('map', 'fmap', 'enumerate', 'skip'):
         return Stream(k, (drop_last(it, st, s.parts[0]),) + tuple(s.parts[1:]))
     if k == 'zip':
         from .terms import NF
@@ -1374,6 +1456,23 @@ def _(ctx):
     return Stream('prefix', (base, mk_sel(found, idx, n)))
 
 
+def _simplify_positional(it, r, ivar):
+    """a predicate on element ι that distinguishes the first position (ι < 1 / ι == 0, as a sequence with its first element
+    written out does): the whole predicate is split on that test, and in the first-position case ι is 0"""
+    from .terms import simp, subst_term
+    first = ('icmp', 'eq', ivar, iconst(0))
+    conds = [t0[1] for t0 in subterms(r) if t0[0] == 'sel' and t0[1] in (first, ('icmp', 'lt', ivar, iconst(1)))]
+    if not conds:
+        return simp(recanon(it, r), {})
+    c = conds[0]
+    neg = mk_not(c)
+    at0 = simp(recanon(it, subst_term(simp(r, {c: True, neg: False}), {ivar: iconst(0)})), {})
+    rest = simp(recanon(it, simp(r, {c: False, neg: True})), {})
+    if at0 == TRUE and rest == TRUE:
+        return TRUE
+    return mk_sel(c, at0, rest)
+
+
 @model('std::iter::Iterator::all')
 def _(ctx):
     it = ctx.interp
@@ -1392,6 +1491,10 @@ def _(ctx):
         return acc
     ivar, r, sub = _closure_on_elem(ctx, s, ctx.args[1])
     ctx.state = State(sub.state.store, st0.guard, st0.facts)
+    if isinstance(r, tuple):
+        r = _simplify_positional(it, r, ivar)
+        if r == TRUE:
+            return TRUE
     # the quantified domain is the underlying element sequence: by-value adaptors (cloned/copied) do not change it
     dom = s
     while isinstance(dom, Stream) and dom.kind == 'cloned':
@@ -2044,8 +2147,16 @@ def close_fold_loop(it, frame, summ):
         return None
     if not isinstance(accb, tuple):
         return None
+    from_back = False
     if it.abstract(bs, ib) != it.abstract(bs, tail):
-        return None
+        # `while let Some(e) = iter.next_back()`: the same fold over the reversed stream
+        try:
+            tail = drop_last(it, bs, if_)
+        except Unsupported:
+            return None
+        if it.abstract(bs, ib) != it.abstract(bs, tail):
+            return None
+        from_back = True
     # every cursor moves by exactly one element per iteration: express it through the iteration count ι
     adv = []
     if not _stream_cursors(if_, tail, adv):
@@ -2078,6 +2189,8 @@ def close_fold_loop(it, frame, summ):
         return None
     body = subst_term(accb, mapping)
     st0 = summ.entry_state
+    if from_back:
+        i0 = Stream('rev', (i0,))
     t = ('fold', it.abstract(st0, i0), a0, af, iota, body)
     ev = {'kind': 'fold', 'fn': frame.f['path'], 'line': summ.line, 'stream': i0, 'init': a0, 'acc': af, 'ivar': iota,
           'body': body, 'elem': None, 'len': stream_len(it, st0, i0), 'term': t, 'from_loop': True}
